@@ -1167,6 +1167,12 @@ func c05RunSeq(mode, cons string, tree []c05Ent, ops []c05Op, gen *rand.Rand, n 
 			}
 			res.cases = append(res.cases, c05Case{where + "|" + string(opj) + "|" + c05Hash(before), nontrivial})
 			res.hist["op:"+op.K+"/"+outB.Cat]++
+			if op.K == "glob" {
+				for _, s := range c05GlobSyntax(op.P) {
+					res.hist["glob:pattern/"+s]++
+				}
+				res.hist[fmt.Sprintf("glob:matches=%s", map[bool]string{true: "0", false: ">0"}[len(outB.Vals) == 0])]++
+			}
 			res.hist["mode:"+mode]++
 			for _, s := range shapes {
 				res.hist["shape:"+s]++
@@ -1550,7 +1556,7 @@ var c05WantedShapes = []string{
 
 func checkC05(c *lib.Ctx) {
 	r := c.R
-	r.Rule = "twin trees (seeded random small tree: dirs, files, relative/absolute/dangling/looping symlinks, hard links, one entry in eight a SPECIAL FILE — unix socket, fifo, character or block device node (mknod, device number 0:0; what the scratch file system allows is in the histogram storable:kind/*) —; one entry in five already carries boundary times, one in eight a boundary owner, some files a sparse boundary size) under one scratch dir; tree A served by a real os-backed Server to a real Client over pipes, tree B operated with package os; PRNG sequences of 25 operation kinds (the 23 of the property plus ReadDirContext with a live / cancelled / concurrently cancelled context, and Getwd) over the names a b c d with nesting <= 3 (paths biased to existing entries, their children, dir-symlinks, dangling links, non-empty dirs, files used as directories, special files themselves and used as directories), absolute paths, working-directory-relative paths (WithServerWorkingDirectory), and PROCESS-DIRECTORY-RELATIVE paths (path mode cwd, c05_cwd.go: the server constructed WITHOUT a working directory — while the process is in the root of the served tree, or in a third copy of the tree — and every call made after the process has chdir'ed into its current place of the served tree, package os getting the very same relative string after a chdir into the same place of the twin tree; the place changes through 'chdir' steps, 7 in 100, into directories at most two levels down, through links to directories, back to the root, so paths are spelled 'x', '../x', '../../x', '.'; such sequences run one at a time in child processes); one ABSOLUTE or process-directory-relative path in eight is spelled NON-CANONICALLY (trailing slash on files / directories / links of every kind, './', '/./', '//', a final '.', 'x/../p' over anything, 'link/../name' and 'link/..' after a symbolic link to a directory, 'e/../e') — the server has no working directory there and the kernel resolves what the client wrote ('link/../x' is the x next to the link's target for the kernel and for package os, never <dir of link>/x); relative paths with a working directory, and RemoveAll / Walk in either mode, get such spellings only with VERIF_C05_NONCANON=1 (c05Gen.spell says why); operations that would open(2) a fifo are not run (they wait for its other end); attribute values are drawn from boundary tables with probability 0.4 (Chtimes seconds 0, 1, 2^31-1, 2^31, 2^32-1, atime != mtime in half of the calls), 0.15 (Truncate to 0, 1, 2^31-1, 2^31, 2^32-1, 2^32, 2^32+1: sparse files), 0.7 (Chown uid/gid 0, 1, 65534, 65535, 65536, 2^31-1, 2^31, 2^32-2, -1), Chmod with setuid/setgid/sticky in one call of four each; after every step: outcome category, returned values (every accessor of every FileInfo: Name, Size of non-directories, Mode, IsDir, Mode().IsDir, Mode().IsRegular, Mode().Type, ModTime to the second, owner; Walk with the FileInfo of every visit), access and modification time left by Chtimes, snapshot of both trees (names, types, modes, sizes, nlink, owners, contents — large files by their non-zero blocks —, link texts, mtimes that are not of the run itself). DIRECTED sequences (c05_attr.go), each in both path modes: every boundary time set through Chtimes on a file / directory / through a link (both times, only one of the two, two different boundaries) and already present on the entries, every boundary size set by Truncate and already present, every setuid/setgid/sticky combination set and already present, every boundary owner set and already present — each followed by Stat, Lstat, ReadDir, ReadDirContext, Walk, Glob and by unrelated changes; FILE KINDS: for each of socket / fifo / character device / block device a tree holding such entries (plain, hard-linked, behind a symbolic link, inside sub-directories, with boundary owner / time / setgid) under Stat, Lstat, ReadLink, ReadDir, ReadDirContext, Walk, Glob, RealPath, StatVFS, MkdirAll / Mkdir / Create / Rename / Link / Symlink THROUGH them, Chmod / Chtimes / Chown / Truncate, Link / Rename / PosixRename / Remove / RemoveDirectory OF them, RemoveAll of the directories holding them; NON-CANONICAL PATHS (abs mode, and mode cwd twice: server constructed in the root and the process staying there / constructed elsewhere and the process moving every seven operations): 41 spellings x every operation kind but RemoveAll in six sequences (look, list, attr, create, rename, remove) over a tree where 'a/up/..' is not 'a'; mode cwd also: from each of eight places (root, a, a/sub, through ld, b, through la, through a/up, root) Getwd, RealPath, Stat/Lstat of eleven entries, ReadDir, Glob, Walk, StatVFS, ReadLink, and a round of Mkdir, MkdirAll, Create, OpenFile, Symlink, Link, Rename, PosixRename, Chmod, Chtimes, Truncate, Chown, Remove, RemoveDirectory, RemoveAll with plain names; directories of 129 / 1024 / 1100 entries (files, sub-directories, links) with names of 1 / 120 / 200 / 255 bytes listed by ReadDir, ReadDirContext (live, cancelled), through a link, Walk, Glob, then RemoveAll (thorough: 14 entry counts 0..4100 x 10 name lengths, all 36 atime/mtime pairs, more sizes and modes). One case = (path mode, operation, tree state before); non-trivial = the os outcome is an error category, or the tree changes, or a path goes through a symbolic link. quick: 150 generated sequences of 20..40 operations (half abs, half rel) + 60 of mode cwd + 184 directed; thorough: 6000 of 60..120, 1000 of 200..400, 2000 of mode cwd + the directed ones. Every failing sequence is delta-debugged on fresh twin trees (operations, entry count and name length of filled directories by bisection, then seed-tree entries) within a time bound before it is reported; up to three witnesses with different signatures per key; a client that has lost its connection is replaced so that the rest of the sequence is judged on its own"
+	r.Rule = "twin trees (seeded random small tree: dirs, files, relative/absolute/dangling/looping symlinks, hard links, one entry in eight a SPECIAL FILE — unix socket, fifo, character or block device node (mknod, device number 0:0; what the scratch file system allows is in the histogram storable:kind/*) —; one entry in five already carries boundary times, one in eight a boundary owner, some files a sparse boundary size) under one scratch dir; tree A served by a real os-backed Server to a real Client over pipes, tree B operated with package os; PRNG sequences of 25 operation kinds (the 23 of the property plus ReadDirContext with a live / cancelled / concurrently cancelled context, and Getwd) over the names a b c d with nesting <= 3 (paths biased to existing entries, their children, dir-symlinks, dangling links, non-empty dirs, files used as directories, special files themselves and used as directories), absolute paths, working-directory-relative paths (WithServerWorkingDirectory), and PROCESS-DIRECTORY-RELATIVE paths (path mode cwd, c05_cwd.go: the server constructed WITHOUT a working directory — while the process is in the root of the served tree, or in a third copy of the tree — and every call made after the process has chdir'ed into its current place of the served tree, package os getting the very same relative string after a chdir into the same place of the twin tree; the place changes through 'chdir' steps, 7 in 100, into directories at most two levels down, through links to directories, back to the root, so paths are spelled 'x', '../x', '../../x', '.'; such sequences run one at a time in child processes); one ABSOLUTE or process-directory-relative path in eight is spelled NON-CANONICALLY (trailing slash on files / directories / links of every kind, './', '/./', '//', a final '.', 'x/../p' over anything, 'link/../name' and 'link/..' after a symbolic link to a directory, 'e/../e') — the server has no working directory there and the kernel resolves what the client wrote ('link/../x' is the x next to the link's target for the kernel and for package os, never <dir of link>/x); relative paths with a working directory, and RemoveAll / Walk in either mode, get such spellings only with VERIF_C05_NONCANON=1 (c05Gen.spell says why); operations that would open(2) a fifo are not run (they wait for its other end); Glob patterns: three in four are BUILT from syntax atoms (c05_globpat.go: one to three components of 1..3 atoms — name characters, *, ?, classes [ab] [a-c] [^a] [\\]a] [*] [[a], escapes \\a \\* \\? \\[ \\\\ —, one pattern in four with NO unescaped magic at all (escaped and plain names only), 12 in 100 malformed ([ [] [a [a- [a-] []a] [^] [-a] trailing backslash) placed where the malformed component meets a non-empty listing, redundant separators), the rest from a table of twelve; the histogram glob:pattern/* counts the features; attribute values are drawn from boundary tables with probability 0.4 (Chtimes seconds 0, 1, 2^31-1, 2^31, 2^32-1, atime != mtime in half of the calls), 0.15 (Truncate to 0, 1, 2^31-1, 2^31, 2^32-1, 2^32, 2^32+1: sparse files), 0.7 (Chown uid/gid 0, 1, 65534, 65535, 65536, 2^31-1, 2^31, 2^32-2, -1), Chmod with setuid/setgid/sticky in one call of four each; after every step: outcome category, returned values (every accessor of every FileInfo: Name, Size of non-directories, Mode, IsDir, Mode().IsDir, Mode().IsRegular, Mode().Type, ModTime to the second, owner; Walk with the FileInfo of every visit), access and modification time left by Chtimes, snapshot of both trees (names, types, modes, sizes, nlink, owners, contents — large files by their non-zero blocks —, link texts, mtimes that are not of the run itself). DIRECTED sequences (c05_attr.go), each in both path modes: every boundary time set through Chtimes on a file / directory / through a link (both times, only one of the two, two different boundaries) and already present on the entries, every boundary size set by Truncate and already present, every setuid/setgid/sticky combination set and already present, every boundary owner set and already present — each followed by Stat, Lstat, ReadDir, ReadDirContext, Walk, Glob and by unrelated changes; FILE KINDS: for each of socket / fifo / character device / block device a tree holding such entries (plain, hard-linked, behind a symbolic link, inside sub-directories, with boundary owner / time / setgid) under Stat, Lstat, ReadLink, ReadDir, ReadDirContext, Walk, Glob, RealPath, StatVFS, MkdirAll / Mkdir / Create / Rename / Link / Symlink THROUGH them, Chmod / Chtimes / Chown / Truncate, Link / Rename / PosixRename / Remove / RemoveDirectory OF them, RemoveAll of the directories holding them; NON-CANONICAL PATHS (abs mode, and mode cwd twice: server constructed in the root and the process staying there / constructed elsewhere and the process moving every seven operations): 41 spellings x every operation kind but RemoveAll in six sequences (look, list, attr, create, rename, remove) over a tree where 'a/up/..' is not 'a'; mode cwd also: from each of eight places (root, a, a/sub, through ld, b, through la, through a/up, root) Getwd, RealPath, Stat/Lstat of eleven entries, ReadDir, Glob, Walk, StatVFS, ReadLink, and a round of Mkdir, MkdirAll, Create, OpenFile, Symlink, Link, Rename, PosixRename, Chmod, Chtimes, Truncate, Chown, Remove, RemoveDirectory, RemoveAll with plain names; GLOB SYNTAX: a tree whose names hold * ? [ ] \\ ^ - themselves (files, directories, links) under 130 patterns — no magic, every magic character escaped in the whole pattern / in its directory part, escapes next to wildcards, wildcards and classes in either part, malformed ones; directories of 129 / 1024 / 1100 entries (files, sub-directories, links) with names of 1 / 120 / 200 / 255 bytes listed by ReadDir, ReadDirContext (live, cancelled), through a link, Walk, Glob, then RemoveAll (thorough: 14 entry counts 0..4100 x 10 name lengths, all 36 atime/mtime pairs, more sizes and modes). One case = (path mode, operation, tree state before); non-trivial = the os outcome is an error category, or the tree changes, or a path goes through a symbolic link. quick: 150 generated sequences of 20..40 operations (half abs, half rel) + 60 of mode cwd + 184 directed; thorough: 6000 of 60..120, 1000 of 200..400, 2000 of mode cwd + the directed ones. Every failing sequence is delta-debugged on fresh twin trees (operations, entry count and name length of filled directories by bisection, then seed-tree entries) within a time bound before it is reported; up to three witnesses with different signatures per key; a client that has lost its connection is replaced so that the rest of the sequence is judged on its own"
 	old := syscall.Umask(0o022) // documented: create/mode
 	defer syscall.Umask(old)
 	ids := []string{}
